@@ -39,7 +39,7 @@ def plan(tier, seed):
         cases.append({"kind": "corrupt", "table": t})
     for a, b in itertools.product(bootstrap_tables, repeat=2):
         cases.append({"kind": "pair", "a": a, "b": b})
-    nchunks = 40 if tier == "quick" else 1000
+    nchunks = 40 if tier == "quick" else 4000
     for i in range(nchunks):
         cases.append({"kind": "random", "seed": seed, "chunk": i, "n": 50 if tier == "quick" else 100})
     return cases
